@@ -1434,3 +1434,375 @@ def c18_ops(rep, W, rule="C18.OPS"):
     rep.floor(rule, "add_snapshot accept exits", nacc, 1)
     # exactly one exit follows the write
     rep.ob(rule, (short_fn(sn), "single-accept-exit"), nacc == 1, "%d exit(s) follow set_snapshot" % nacc, where(sn))
+
+
+# =========================================================================== C10
+def closure_result(W, closure_term, param_terms):
+    """Value returned by a closure aggregate applied to arguments (single-exit closures only):
+    the closure's exit term with upvars / parameters substituted."""
+    if not (closure_term[0] == "agg" and isinstance(closure_term[1], tuple) and closure_term[1][0] == "closure"):
+        return None
+    cb = W.prog.bodies.get(closure_term[1][1])
+    if cb is None:
+        return None
+    ex = exits(W, cb)
+    if len(ex) != 1:
+        return None
+    upv = {int(n): v for n, v in closure_term[2]}
+    mapping = {i + 2: a for i, a in enumerate(param_terms)}
+
+    def sub(t):
+        if not isinstance(t, tuple) or not t:
+            return t
+        if t[0] == "upvar":
+            return upv.get(t[1], t)
+        if t[0] == "param":
+            return mapping.get(t[1], t)
+        if t[0] in ("ok", "err"):
+            return (t[0], sub(t[1]))
+        if t[0] == "field":
+            return P.mk_field(sub(t[1]), t[2])
+        if t[0] == "variant":
+            return ("variant", sub(t[1])) + tuple(t[2:])
+        if t[0] == "call":
+            return (t[0], t[1], t[2], tuple(sub(a) for a in t[3]))
+        if t[0] == "agg":
+            return (t[0], t[1], tuple((n, sub(v)) for n, v in t[2]))
+        return t
+    return sub(ex[0][1])
+
+
+def c10(rep, W, rule="C10"):
+    body = W.op("add_snapshot")
+    fn = short_fn(body)
+    g = W.gea(body)
+    pv = W.prov(body)
+    tinfo = txn_term_of(W, body)
+    if len(tinfo) != 1:
+        rep.fail(rule, (fn, "txn"), "cannot identify the single transaction of add_snapshot", where(body))
+        return
+    txn = tinfo[0][2]
+    client, _ = client_term(W, body, txn)
+    if client is None:
+        rep.fail(rule, (fn, "client"), "add_snapshot does not read the client record exactly once through its transaction", where(body))
+        return
+    v = ("param", 3, ANY)
+    # SNAP: Option::map(client.snapshot, |s| s.version_id)
+    snap_terms = [x for a in g.atoms for part in a[1:] if isinstance(part, tuple) for x in P.walk(part)
+                  if x[0] == "call" and x[1] == "core::option::Option::<T>::map" and x[3][0] == ("field", client, "snapshot")]
+    snap_terms = list(set(snap_terms))
+    oks = len(snap_terms) == 1 and closure_result(W, snap_terms[0][3][1], [("param", 99, "s")]) == ("field", ("param", 99, "s"), "version_id")
+    rep.ob(rule, (fn, "snapshot-version"), oks, "the existing snapshot's version is client.snapshot.map(|s| s.version_id) (%d candidate term(s))" % len(snap_terms), where(body))
+    if not oks:
+        return
+    SNAP = snap_terms[0]
+    # loop variables
+    vids = [l for l in pv.phi_locals if body.locals[l]["ty"] == "uuid::Uuid" and body.locals[l]["user"]]
+    cnts = [l for l in pv.phi_locals if body.locals[l]["ty"] in ("i32", "i64", "u32", "usize", "isize", "u64", "i16", "u16", "u8", "i8") and body.locals[l]["user"]]
+    if len(vids) != 1 or len(cnts) != 1:
+        rep.fail(rule, (fn, "loop-variables"), "expected one walking id variable and one counter (found %d, %d)" % (len(vids), len(cnts)), where(body))
+        return
+    vid_l, cnt_l = vids[0], cnts[0]
+    VID = ("phi", vid_l, ANY)
+    CNT = ("phi", cnt_l, ANY)
+    some = lambda p_: pat.adt("Option", "Some", ("0", p_))  # noqa: E731
+    e = find_eq_atom(g, some(v), SNAP)
+    mt = find_eq_atom(g, v, VID)
+    z = find_eq_atom(g, v, nil_const_pat())
+    s = find_eq_atom(g, some(VID), SNAP)
+    n = find_eq_atom(g, VID, nil_const_pat())
+    ks = [a for a in g.atoms if a[0] == "CMP" and (m(CNT, a[2]) is not None or m(CNT, a[3]) is not None)]
+    gvs = sites_of(body, WD.tm("get_version"))
+    names = {"G0 Some(v)==snapshot": e, "G1 vid==v": mt, "G1 v!=NIL": z, "G2 Some(vid)==snapshot": s, "G3 vid==NIL": n}
+    for nm, a in names.items():
+        rep.ob(rule, (fn, "atom", nm), a is not None, "test %s %s" % (nm, "present" if a else "NOT FOUND"), where(body))
+    rep.ob(rule, (fn, "atom", "G3 counter test"), len(ks) == 1, "%d comparison(s) on the counter" % len(ks), where(body))
+    rep.ob(rule, (fn, "atom", "G4 parent lookup"), len(gvs) == 1, "%d get_version call(s)" % len(gvs), where(body))
+    if None in names.values() or len(ks) != 1 or len(gvs) != 1:
+        return
+    k = ks[0]
+    gv_bb = gvs[0][0]
+    gva = pv.arg_terms(gv_bb)
+    rep.ob(rule, (fn, "G4", "lookup-args"), gva[0] == txn and m(VID, gva[1]) is not None, "parent link read via get_version(%s) on %s" % (P.show(gva[1]), P.show(gva[0])), where(body, gv_bb))
+    gatom = ("VARIANT", ("ok", pv.def_term((gv_bb, "T"))))
+    # counter: k_true = "counter exhausted"
+    if m(CNT, k[2]) is not None and k[3][0] == "const":
+        form, bound = k[1], k[3][2]          # cnt < c  /  cnt <= c
+        k_exhausted = True
+    elif m(CNT, k[3]) is not None and k[2][0] == "const":
+        form, bound = ("Gt" if k[1] == "Lt" else "Ge"), k[2][2]   # c < cnt == cnt > c
+        k_exhausted = False
+    else:
+        rep.fail(rule, (fn, "N", "counter-test-form"), "counter is not compared with a constant: %s" % G.show_atom(k), where(body))
+        return
+    # C10.W
+    ss_ = sites_of(body, WD.tm("set_snapshot"))
+    if len(ss_) != 1:
+        rep.fail(rule, (fn, "W", "single-writer"), "%d set_snapshot sites" % len(ss_), where(body))
+        return
+    wbb = ss_[0][0]
+    fW = ("and", ("is", e, False), ("is", mt, True), ("is", z, False))
+    rep.ob(rule, (fn, "W", "guard"), all_vals(g, (wbb, "T"), fW),
+           "set_snapshot is reached only when v is not the current snapshot, v equals the walked id and v != NIL; offending: %s" % failing_vals(g, (wbb, "T"), fW)[:1], where(body, wbb))
+    wa = pv.arg_terms(wbb)
+    wantS = pat.adt("Snapshot", "Snapshot", ("version_id", v), ("timestamp", call("chrono::offset::utc::Utc::now")), ("versions_since", pat.const(val=0)))
+    rep.ob(rule, (fn, "W", "snapshot-record"), wa[0] == txn and m(wantS, wa[1]) is not None,
+           "stored record is %s; must be {version_id: v, timestamp: now, versions_since: 0}" % P.show(wa[1]), where(body, wbb))
+    rep.ob(rule, (fn, "W", "snapshot-bytes"), m(("param", 4, ANY), wa[2]) is not None, "stored bytes are %s; must be the submitted data" % P.show(wa[2]), where(body, wbb))
+    # C10.ITER: the single in-loop assignment of vid
+    vdefs = pv.phi_alternatives(vid_l)
+    cdefs = pv.phi_alternatives(cnt_l)
+    rec = ("ok", ("ok", pv.def_term((gv_bb, "T"))))
+    init_v = [t for sdef, t in vdefs if t == ("field", client, "latest_version_id")]
+    step_v = [(sdef, t) for sdef, t in vdefs if t == ("field", rec, "parent_version_id")]
+    rep.ob(rule, (fn, "ITER", "vid-defs"), len(vdefs) == 2 and len(init_v) == 1 and len(step_v) == 1,
+           "walk variable definitions: %s; must be {client.latest_version_id, parent link of the version just read}" % [P.show(t) for _, t in vdefs], where(body))
+    init_c = [t for sdef, t in cdefs if t[0] == "const" and isinstance(t[2], int)]
+    step_c = []
+    for sdef, t in cdefs:
+        t2 = t[1] if (t[0] == "field" and t[2] == "0") else t
+        if t2[0] == "binop" and t2[1] in ("Sub", "SubWithOverflow", "SubUnchecked") and m(CNT, t2[2]) is not None and m(pat.const(val=1), t2[3]) is not None:
+            step_c.append((sdef, t))
+    rep.ob(rule, (fn, "ITER", "counter-defs"), len(cdefs) == 2 and len(init_c) == 1 and len(step_c) == 1,
+           "counter definitions: %s; must be {constant, counter - 1}" % [P.show(t) for _, t in cdefs], where(body))
+    if len(step_v) != 1 or len(step_c) != 1 or len(init_c) != 1:
+        return
+    vsite, csite = step_v[0][0], step_c[0][0]
+    cont = ("and", ("or", ("is", mt, False), ("is", z, True)), ("is", s, False), ("is", k, not k_exhausted), ("is", n, False), ("is", gatom, "ok"))
+    rep.ob(rule, (fn, "ITER", "continue-conditions"), all_vals(g, vsite, cont),
+           "the walk advances only when: not accepted, vid is not the snapshot version, counter not exhausted, vid != NIL, version found; offending: %s"
+           % failing_vals(g, vsite, cont)[:1], where(body, vsite[0]))
+    pre_dec = ("and", ("or", ("is", mt, False), ("is", z, True)), ("is", s, False))
+    rep.ob(rule, (fn, "ITER", "accept-and-G2-before-decrement"), all_vals(g, csite, pre_dec),
+           "the accept test and the newer-snapshot test are evaluated on the current id before the counter is decremented; offending: %s" % failing_vals(g, csite, pre_dec)[:1],
+           where(body, csite[0]))
+    # one decrement per iteration: no cycle through the vid step that avoids the decrement
+    starts = set()
+    for st_ in g.states_at_block(vsite[0]):
+        starts |= g.edges.get(st_, set())
+    seen = set()
+    stk = list(starts)
+    skip = False
+    while stk:
+        x = stk.pop()
+        if x in seen or x[0] == csite[0]:
+            continue
+        seen.add(x)
+        if x[0] == vsite[0]:
+            skip = True
+            break
+        for y in g.edges.get(x, ()):
+            stk.append(y)
+    rep.ob(rule, (fn, "ITER", "one-decrement-per-step"), not skip, "every iteration of the walk passes the counter decrement", where(body, csite[0]))
+    # C10.N trip count of the accept test
+    N0 = init_c[0][2]
+    tests = None
+    if form == "Le" and bound == 0:
+        tests = N0
+    elif form == "Lt" and bound == 0:
+        tests = N0 + 1
+    elif form == "Le":
+        tests = N0 - bound
+    elif form == "Lt":
+        tests = N0 - bound + 1
+    rep.ob(rule, (fn, "N", "window-size"), tests == 5,
+           "counter starts at %s, decremented once per step, walk stops when counter %s %s after the decrement: the accept test runs on at most %s versions; the protocol says five"
+           % (N0, "<=" if form == "Le" else form, bound, tests), where(body),
+           sample={"init": N0, "exit_test": "%s %s" % (form, bound), "accept_tests": tests})
+    # C10.D: every non-error exit is Ok(()); decline exits are exactly under a decline condition
+    okunit = pat.adt("Result", "Ok", ("0", ("agg", "tuple", ())))
+    decl = ("or", ("is", e, True), ("is", s, True), ("is", k, k_exhausted), ("is", n, True), ("is", gatom, "err"))
+    nd = 0
+    for site, term in exits(W, body):
+        if is_error_exit(term):
+            continue
+        rep.ob(rule, (fn, "D", "ok-unit#%d" % nd), m(okunit, term) is not None, "non-error exit returns %s; the client is told success either way" % P.show(term), where(body, line=exit_line(body, site)), nontrivial=False)
+        if site[0] == wbb or g.may_follow(wbb, site[0]):
+            continue
+        nd += 1
+        rep.ob(rule, (fn, "D", "decline-condition#%d" % nd), all_vals(g, site, decl),
+               "a decline exit is taken only under: already the snapshot / newer snapshot in window / window exhausted / chain start reached / version missing; offending: %s"
+               % failing_vals(g, site, decl)[:1], where(body, line=exit_line(body, site)))
+    rep.floor(rule, "decline exits", nd, 4, where(body))
+
+
+# =========================================================================== C11
+def c11(rep, W, rule="C11"):
+    ss, un, uc, inst = sql_world(W)
+    # ---- WRITE (sqlite)
+    sb = W.impl_method("sqlite", "set_snapshot")
+    fn = short_fn(sb)
+    mine = [i for i in inst if i.owner.key == sb.key and i.stmt]
+    rep.ob(rule + ".WRITE", (fn, "single-statement"), len(mine) == 1 and mine[0].stmt["verb"] == "UPDATE" and mine[0].stmt["table"] == "clients",
+           "set_snapshot issues %s; id, timestamp, counter and bytes must be written by ONE statement" % [(i.stmt["verb"], i.stmt["table"]) for i in mine], where(sb))
+    want = {"snapshot_version_id": stored_uuid(("field", ("param", 2, ANY), "version_id")),
+            "snapshot_timestamp": call("chrono::datetime::DateTime::<Tz>::timestamp", ("field", ("param", 2, ANY), "timestamp")),
+            "versions_since_snapshot": ("field", ("param", 2, ANY), "versions_since"),
+            "snapshot": ("param", 3, ANY)}
+    for i in mine[:1]:
+        cols = dict(i.stmt["writes"])
+        for col, p_ in want.items():
+            ex_ = cols.get(col)
+            got = i.param(ex_[1]) if ex_ and ex_[0] == "param" else None
+            rep.ob(rule + ".WRITE", (fn, "column", col), got is not None and m(p_, got) is not None,
+                   "column clients.%s is bound to %s" % (col, P.show(got) if got else ex_), i.where())
+    for i in inst:
+        if i.stmt is None or i.owner.key == sb.key:
+            continue
+        w = [c for c, _ in i.stmt["writes"] if c in ("snapshot_version_id", "snapshot", "snapshot_timestamp")]
+        if w:
+            rep.fail(rule + ".WRITE", ("sql", short_fn(i.owner), "other-writer"), "columns %s written outside set_snapshot" % w, i.where())
+    # ---- WRITE (in-memory)
+    mb = W.impl_method("inmemory", "set_snapshot")
+    ops, stores = E.inmem_summary(W, mb)
+    di = [o for o in ops if o.logical == "snapshots" and o.method == "insert"]
+    st_ = [s for s in stores if s.target[0] == "field" and s.target[2] == "snapshot"]
+    rep.ob(rule + ".WRITE", (short_fn(mb), "meta+data-together"),
+           len(di) == 1 and len(st_) == 1 and m(("param", 3, ANY), di[0].value) is not None and m(pat.adt("Option", "Some", ("0", ("param", 2, ANY))), st_[0].value) is not None,
+           "in-memory set_snapshot stores metadata := %s and data := %s in the same method" % (P.show(st_[0].value) if st_ else None, P.show(di[0].value) if di else None), where(mb))
+    if di and st_:
+        gm = W.gea(mb)
+        for site, term in exits(W, mb):
+            if is_error_exit(term):
+                continue
+            okb = gm.must_precede(di[0].bb, site[0]) and gm.must_precede(st_[0].site[0], site[0])
+            rep.ob(rule + ".WRITE", (short_fn(mb), "ok-after-both"), okb, "Ok is returned only after both the metadata and the data were stored", where(mb))
+    # ---- READ (Server::get_snapshot)
+    body = W.op("get_snapshot")
+    fnb = short_fn(body)
+    g = W.gea(body)
+    pv = W.prov(body)
+    txn = txn_term_of(W, body)[0][2]
+    client, _ = client_term(W, body, txn)
+    gsd = sites_of(body, WD.tm("get_snapshot_data"))
+    if client is None or len(gsd) != 1:
+        rep.fail(rule + ".READ", (fnb, "anchor"), "get_snapshot must read the client once and call get_snapshot_data once", where(body))
+        return
+    snapid = ("field", ("ok", ("field", client, "snapshot")), "version_id")
+    ga = pv.arg_terms(gsd[0][0])
+    rep.ob(rule + ".READ", (fnb, "data-for-stored-id"), ga[0] == txn and ga[1] == snapid,
+           "snapshot bytes are fetched with get_snapshot_data(%s) on %s; must be the id in the client record read by the same transaction" % (P.show(ga[1]), P.show(ga[0])), where(body, gsd[0][0]))
+    data_opt = ("ok", pv.def_term((gsd[0][0], "T")))
+    nfound = 0
+    for site, rt, val, kind in exit_kinds(W, body, lambda t: "x"):
+        if is_error_exit(rt):
+            continue
+        mo = m(pat.adt("Result", "Ok", ("0", V("x"))), rt)
+        x = mo["x"] if mo else None
+        if x is not None and x[0] == "call" and x[1] == "core::option::Option::<T>::map":
+            nfound += 1
+            res = closure_result(W, x[3][1], [("param", 98, "data")])
+            okp = x[3][0] == data_opt and res == pat_tuple(snapid, ("param", 98, "data"))
+            rep.ob(rule + ".READ", (fnb, "pair-from-same-record"), okp,
+                   "found-outcome is %s.map(|data| %s); must pair the record's own version id with the bytes fetched for it" % (P.show(x[3][0])[:80], P.show(res) if res else "?"),
+                   where(body, line=exit_line(body, site)))
+        elif x is not None and m(pat.adt("Option", "None", Ellipsis), x) is not None:
+            sa = ("VARIANT", ("field", client, "snapshot"))
+            rep.ob(rule + ".READ", (fnb, "none-iff-no-snapshot"), val.get(sa) == frozenset(["err"]), "None is returned only when the client record has no snapshot", where(body, line=exit_line(body, site)))
+        else:
+            rep.fail(rule + ".READ", (fnb, "unknown-outcome"), "unrecognised non-error outcome %s" % P.show(rt)[:120], where(body, line=exit_line(body, site)))
+    rep.floor(rule + ".READ", "get_snapshot found-outcomes", nfound, 1, where(body))
+    # ---- cross-check in both back ends
+    sq = W.impl_method("sqlite", "get_snapshot_data")
+    sel = [i for i in inst if i.owner.key == sq.key and i.stmt and i.stmt["verb"] == "SELECT"]
+    rep.ob(rule + ".READ", (short_fn(sq), "one-select-both-columns"), len(sel) == 1 and {"snapshot", "snapshot_version_id"} <= set(sel[0].stmt["select"]),
+           "get_snapshot_data reads %s in one SELECT" % (sel[0].stmt["select"] if sel else None), where(sq))
+    pvs = W.prov(sq)
+    # the tuple handed to the checking closure is (snapshot_version_id column, snapshot column)
+    chk = [b for b in W.prog.closures_of(sq) if any(a[0] == "EQ" for a in W.gea(b).atoms)]
+    rowc = sel[0].site.closure if sel else None
+    okrow = False
+    if rowc is not None:
+        for site, term in exits(W, rowc):
+            mm = m(pat.adt("Result", "Ok", ("0", pat.tup(V("v"), V("d")))), term)
+            if mm is not None:
+                cv = _col_of(mm["v"])
+                cd = _col_of(mm["d"])
+                okrow = (cv, cd) == ("snapshot_version_id", "snapshot")
+    rep.ob(rule + ".READ", (short_fn(sq), "row-tuple"), okrow, "row closure yields (snapshot_version_id, snapshot)", where(sq))
+    okchk = False
+    if len(chk) == 1:
+        cb = chk[0]
+        gc_ = W.gea(cb)
+        eqs = [a for a in gc_.atoms if a[0] == "EQ"]
+        # which upvar is compared: must be the method's version_id parameter
+        crea = None
+        for bb, t in sq.calls():
+            for a in pvs.arg_terms(bb):
+                if a[0] == "agg" and isinstance(a[1], tuple) and a[1] == ("closure", cb.deff):
+                    crea = a
+        for site, term in exits(W, cb):
+            mm = m(pat.adt("Result", "Ok", ("0", V("d"))), term)
+            if mm is not None and len(eqs) == 1 and crea is not None:
+                a = eqs[0]
+                sides = [a[1], a[2]]
+                up = [x for x in sides if x[0] == "upvar"]
+                tp = [x for x in sides if x[0] == "field" and x[2] == "0"]
+                cap = dict((int(n_), v_) for n_, v_ in crea[2])
+                okchk = (len(up) == 1 and len(tp) == 1 and m(("param", 2, ANY), cap.get(up[0][1], ("unknown",))) is not None
+                         and mm["d"] == ("field", tp[0][1], "1") and all_vals(gc_, site, ("is", a, True)))
+    rep.ob(rule + ".READ", (short_fn(sq), "cross-check"), okchk,
+           "bytes are returned only when the stored snapshot_version_id equals the requested id (error otherwise)", where(sq))
+    im = W.impl_method("inmemory", "get_snapshot_data")
+    gi = W.gea(im)
+    eqs = [a for a in gi.atoms if a[0] == "EQ"]
+    okim = False
+    for site, term in exits(W, im):
+        if is_error_exit(term):
+            continue
+        okim = len(eqs) == 1 and all_vals(gi, site, ("is", eqs[0], True)) and any(
+            m(pat.adt("Option", "Some", ("0", ("param", 2, ANY))), x) is not None for x in (eqs[0][1], eqs[0][2]))
+    rep.ob(rule + ".READ", (short_fn(im), "cross-check"), okim, "in-memory: data is returned only when Some(requested id) equals the stored snapshot version", where(im))
+    # ---- META: get_client column <-> field agreement
+    gc = W.impl_method("sqlite", "get_client")
+    selc = [i for i in inst if i.owner.key == gc.key and i.stmt and i.stmt["verb"] == "SELECT"]
+    if len(selc) != 1 or selc[0].site.closure is None:
+        rep.fail(rule + ".META", (short_fn(gc), "anchor"), "get_client must issue exactly one SELECT with a row closure", where(gc))
+        return
+    cl = selc[0].site.closure
+    sel_list = selc[0].stmt["select"]
+    colmap = {}
+    for key, ty, bb, term in selc[0].site.rows:
+        colmap[term] = sel_list[key] if isinstance(key, int) and key < len(sel_list) else key
+    gcl = W.gea(cl)
+    nsome = 0
+    for site, rt, val, kind in exit_kinds(W, cl, lambda t: "x"):
+        if is_error_exit(rt):
+            continue
+        mm = m(pat.adt("Result", "Ok", ("0", pat.adt("Client", "Client", ("latest_version_id", V("l")), ("snapshot", V("s"))))), rt)
+        if mm is None:
+            rep.fail(rule + ".META", (short_fn(cl), "builds-Client"), "row closure returns %s" % P.show(rt)[:120], where(cl))
+            continue
+        lcol = _col_via(mm["l"], colmap)
+        rep.ob(rule + ".META", (short_fn(cl), "latest-from-column"), lcol == "latest_version_id", "Client.latest_version_id is read from column %s" % lcol, where(cl))
+        ms = m(pat.adt("Option", "Some", ("0", pat.adt("Snapshot", "Snapshot", ("version_id", V("v")), ("timestamp", V("t")), ("versions_since", V("c"))))), mm["s"])
+        if ms is not None:
+            nsome += 1
+            cols = (_col_via(ms["v"], colmap), _col_via(ms["t"], colmap), _col_via(ms["c"], colmap))
+            rep.ob(rule + ".META", (short_fn(cl), "snapshot-fields-from-columns"), cols == ("snapshot_version_id", "snapshot_timestamp", "versions_since_snapshot"),
+                   "Snapshot{version_id, timestamp, versions_since} are read from columns %s" % (cols,), where(cl))
+            ts_ok = any(x[0] == "call" and x[1] == "chrono::offset::TimeZone::timestamp_opt" and m(pat.const(val=0), x[3][2]) is not None for x in P.walk(ms["t"]))
+            rep.ob(rule + ".META", (short_fn(cl), "timestamp-seconds"), ts_ok, "timestamp is decoded with timestamp_opt(seconds, 0) (seconds in, seconds out)", where(cl))
+    rep.floor(rule + ".META", "get_client Some(snapshot) outcomes", nsome, 1, where(cl))
+
+
+def pat_tuple(*items):
+    return ("agg", "tuple", tuple((str(i), it) for i, it in enumerate(items)))
+
+
+def _col_of(t):
+    """Column name a row-read term denotes: [ok](Row::get(r, "col"))[.0]"""
+    if t[0] == "field" and t[2] == "0":
+        t = t[1]
+    while t[0] == "ok":
+        t = t[1]
+    if t[0] == "call" and t[1] == "rusqlite::row::Row::<'stmt>::get" and t[3][1][0] == "const":
+        return t[3][1][2]
+    return None
+
+
+def _col_via(t, colmap):
+    for x in P.walk(t):
+        if x in colmap:
+            return colmap[x]
+    return None
